@@ -674,7 +674,7 @@ def _exit_setsketch(ctx, facts):
     cl = counted_loop(fn, loop)
     guard_atoms = set()
     if cl is not None and cl.get("guard") is not None:
-        guard_atoms = {tuple(x) for x in nf.atoms(cl["guard"], True, res=R)} | {tuple(x) for x in nf.atoms(cl["guard"], True)}
+        guard_atoms = {repr(x) for x in nf.atoms(cl["guard"], True, res=R)} | {repr(x) for x in nf.atoms(cl["guard"], True)}
     for (kind, node) in loop_exits(fn, loop):
         if kind == "iterator-exhausted" or (kind == "guard" and cl is not None):
             # every item makes up to m draws, one per register: the loop must count m iterations (0..m, 1..=m reversed, a countdown from m, ..)
@@ -688,8 +688,8 @@ def _exit_setsketch(ctx, facts):
                 ctx.violation("EXIT", fid, "draw range", hirq.loc(loop), "the draw loop of an item ranges over `%s`, not 0..self.m: some register is never offered a value of this item" % rng[:80])
             continue
         n += 1
-        conds = [c_ for c_ in nf.all_conditions(t, node, stop=loop, res=R) if tuple(c_) not in guard_atoms]
-        shown = [c_ for c_ in nf.all_conditions(t, node, stop=loop) if tuple(c_) not in guard_atoms]
+        conds = [c_ for c_ in nf.all_conditions(t, node, stop=loop, res=R) if repr(c_) not in guard_atoms]
+        shown = [c_ for c_ in nf.all_conditions(t, node, stop=loop) if repr(c_) not in guard_atoms]
         ok = False
         if kind == "break" and len(conds) == 1 and conds[0][0] == "cmp":
             _c, a, op, b = conds[0]
@@ -851,7 +851,7 @@ def deleg_slice(ctx, facts, fid, finisher=None, rule="DELEG"):
         # the for_each statement itself may only be guarded by the non-emptiness of the slice (the other branch reports it)
         L = "%s.len()" % SLICE
         nonempty = [("cmp", "0", "<", L), ("cmp", "0", "!=", L), ("cmp", "1", "<=", L), ("truth", "%s.is_empty()" % SLICE, False)]
-        outer = [c_ for c_ in nf.all_conditions(t, fe_call, res=resolver_of(fn)) if tuple(c_) not in nonempty]
+        outer = [c_ for c_ in nf.all_conditions(t, fe_call, res=resolver_of(fn)) if not (isinstance(c_, (list, tuple)) and all(isinstance(y_, (str, bool)) for y_ in c_) and tuple(c_) in nonempty)]
         if outer:
             ctx.violation(rule, fid, "conditional delegation", hirq.loc(fe_call), "the per-element pass only runs when %s" % (outer[:2],))
             return
